@@ -30,9 +30,11 @@ func vxAssertRestored(p, b *Position, pre string) {
 // square concrete (4096 cases); board, side, rights, ep, clocks, move type, promotion piece, undo
 // stack symbolic; additive totals and hash key arbitrary; bitboards arbitrary except on the squares
 // the move touches.
-func VN_C03_do_undo() int { return 4 * 4096 }
+func VN_C03_do_undo() int { return vxNumFeasible() }
 func VQ_C03_do_undo() int { return 192 }
-func VH_C03_do_undo(k int) {
+func VF_C03_do_undo() int { return vxNumSpecial() }
+func VH_C03_do_undo(i int) {
+	k := vxNthFeasible(i)
 	m := vxMoveSqRaw(k)
 	p, s := VxSymPosFreeL("", func(s *VxState) VxState { return s.VxSpecDoMove(m) })
 	vxAssume(s.VxSpecPseudoLegal(m))
